@@ -646,7 +646,9 @@ def mk_batchrepeat(draw, cfg, dom, m, n, batch, depth):
     base_b = []
     rep = []
     for x in batch:
-        dv = draw(st.sampled_from(divisors(x)))
+        proper = [d_ for d_ in divisors(x) if 1 < d_ < x]
+        # (a proper divisor = base batch size > 1 AND repeat factor > 1 in the same dimension)
+        dv = draw(st.sampled_from(proper)) if proper and draw(st.booleans()) else draw(st.sampled_from(divisors(x)))
         base_b.append(dv)
         rep.append(x // dv)
     # optionally drop leading size-1 dims of the base (the constructor unsqueezes)
@@ -819,6 +821,9 @@ def head_first_recipes(draw, dom="any", **kw):
     doms = [dom] if dom != "any" else draw(st.permutations(["any", "psd", "pd"]))
     for _ in range(4):
         batch = draw(st.sampled_from(kw.get("batches") or BATCHES))
+        if name == "BatchRepeat" and draw(st.booleans()):
+            # composite batch sizes: only these allow base batch size > 1 AND repeat factor > 1 in the same dimension
+            batch = draw(st.sampled_from([(4,), (4,), (6,), (2, 4), (4, 1)]))
         n = draw(st.integers(1, cfg.max_dim))
         m = n if draw(st.integers(0, 2)) else draw(st.integers(1, cfg.max_dim))
         depth = draw(st.integers(2, max(2, max_depth)))
